@@ -9,6 +9,7 @@ for d in sorted(glob.glob('/verif/seeded/*/')):
     name=os.path.basename(d.rstrip('/'))
     det=j.get('detected', 'detected_by' in j and 'NOT' not in j['detected_by'])
     hist=(j.get('history','') or '')
+    if isinstance(hist,list): hist=' ; '.join(hist)
     first='missed' if 'missed' in hist.lower() else 'caught'
     rows.append((name,j['property'],first,'caught' if det else 'MISSED',j.get('detected_by','')[:200].replace('|','/'),hist[:300].replace('|','/')))
 out=["# Seeded property-breaking changes","",
